@@ -32,6 +32,10 @@
 #include "libs/acn/DMPE131Inflator.h"
 #include "libs/acn/DMPHeader.h"
 #include "libs/acn/E131Inflator.h"
+#include "libs/acn/PreamblePacker.h"
+#include "libs/acn/RootInflator.h"
+#include "libs/acn/UDPTransport.h"
+#include "ola/network/Socket.h"
 #include "libs/acn/E131Header.h"
 #include "libs/acn/HeaderSet.h"
 #include "libs/acn/RootHeader.h"
@@ -66,8 +70,23 @@ static string buf_hex(const ola::DmxBuffer &b) {
   return vh::hex(s);
 }
 
+static size_t rng_short(size_t n) { return n < 16 ? n / 2 : 15 - (n % 9); }  // shorter than the preamble
 static int g_cb = 0;
 static void on_cb() { g_cb++; }
+
+// a UDP socket whose next datagram is supplied by the harness (IncomingUDPTransport wants a UDPSocket*)
+class FedUDPSocket: public ola::network::UDPSocket {
+ public:
+  std::vector<uint8_t> next;
+  bool RecvFrom(uint8_t *buffer, ssize_t *data_read, ola::network::IPV4SocketAddress *source) {
+    size_t n = std::min(static_cast<size_t>(*data_read), next.size());
+    if (n) memcpy(buffer, next.data(), n);
+    *data_read = n;
+    *source = ola::network::IPV4SocketAddress(ola::network::IPV4Address(0x0a00000b), 5568);
+    return true;
+  }
+  using ola::network::UDPSocket::RecvFrom;
+};
 
 // ------------------------------------------------------------------ sACN
 // payload: sacn <ignore_preview> <registered universe> <step>,<step>,...
@@ -83,6 +102,12 @@ static string run_sacn(const vector<string> &a, bool wire) {
   E131InflatorRev2 e131_rev2_inflator;
   e131_inflator.AddInflator(&inflator);
   e131_rev2_inflator.AddInflator(&inflator);
+  // ... and the root layer + UDP transport in front of those, for whole datagrams
+  RootInflator root_inflator;
+  root_inflator.AddInflator(&e131_inflator);
+  root_inflator.AddInflator(&e131_rev2_inflator);
+  FedUDPSocket fed_socket;
+  IncomingUDPTransport transport(&fed_socket, &root_inflator);
   ola::DmxBuffer out;
   uint8_t prio = 0;
   g_cb = 0;
@@ -113,7 +138,9 @@ static string run_sacn(const vector<string> &a, bool wire) {
       inflator.HandlePDUData(vec, headers, pdu.p, pdu.n);
     } else {
       // step: dt:cid:rev2:fvec:prio:seq:opts:univ:dvec:dmph:pduhex  (framing-layer bytes, real decoders)
-      bool rev2 = vh::num(f[2]) != 0;
+      bool whole = f.size() >= 13;   // ...:pre:rvec  = a whole datagram through the receive stack
+      uint32_t rvec = whole ? vh::num(f[12]) : 0;
+      bool rev2 = whole ? (rvec == ola::acn::VECTOR_ROOT_E131_REV2) : (vh::num(f[2]) != 0);
       uint32_t fvec = vh::num(f[3]);
       uint16_t univ = vh::num(f[7]);
       vector<uint8_t> body = vh::unhex(f[10]);
@@ -138,9 +165,23 @@ static string run_sacn(const vector<string> &a, bool wire) {
       pk.push_back(fvec >> 24); pk.push_back(fvec >> 16); pk.push_back(fvec >> 8); pk.push_back(fvec);
       pk.insert(pk.end(), hdr.begin(), hdr.end());
       pk.insert(pk.end(), dmp.begin(), dmp.end());
-      vh::Exact bytes(pk);
-      if (rev2) e131_rev2_inflator.InflatePDUBlock(&headers, bytes.p, bytes.n);
-      else e131_inflator.InflatePDUBlock(&headers, bytes.p, bytes.n);
+      if (whole) {
+        unsigned pre = vh::num(f[11]);   // 1 valid preamble, 0 corrupted, 2 truncated datagram
+        vector<uint8_t> dg(PreamblePacker::ACN_HEADER, PreamblePacker::ACN_HEADER + PreamblePacker::ACN_HEADER_SIZE);
+        if (pre == 0) dg[5] ^= 0x20;
+        unsigned rlen = 2 + 4 + 16 + pk.size();   // root PDU: flags+length, vector, CID, framing block
+        dg.push_back(0x70 | ((rlen >> 8) & 0x0f)); dg.push_back(rlen & 0xff);
+        dg.push_back(rvec >> 24); dg.push_back(rvec >> 16); dg.push_back(rvec >> 8); dg.push_back(rvec);
+        dg.insert(dg.end(), cid_bytes, cid_bytes + 16);
+        dg.insert(dg.end(), pk.begin(), pk.end());
+        if (pre == 2) dg.resize(rng_short(dg.size()));
+        fed_socket.next = dg;
+        transport.Receive();
+      } else {
+        vh::Exact bytes(pk);
+        if (rev2) e131_rev2_inflator.InflatePDUBlock(&headers, bytes.p, bytes.n);
+        else e131_inflator.InflatePDUBlock(&headers, bytes.p, bytes.n);
+      }
     }
     if (i) res << ";";
     res << "o" << i << "=" << g_cb << "|" << static_cast<int>(prio) << "|" << buf_hex(out);
